@@ -99,7 +99,11 @@ func VerifC02Prog() {
 	a := verifrt.Int64("a")
 	b := verifrt.Int64("b")
 	// small ranges keep loops and indexes inside the unwinding bound
-	verifrt.Assume(a >= -1 && a <= 4 && b >= -1 && b <= 4)
+	if verifrt.Param("wide") == 1 {
+		verifrt.Assume(a >= -3 && a <= 9 && b >= -3 && b <= 9)
+	} else {
+		verifrt.Assume(a >= -1 && a <= 4 && b >= -1 && b <= 4)
+	}
 	args := []Object{Int(a), Int(b)}
 	wantVal, wantErr, ri := refRun("global out; "+src, nil, Map{"gx": Int(0)}, args...)
 	verifrt.AssertMsg(ri.unsupported == "", "reference-interpreter-supports-program", ri.unsupported)
